@@ -11,7 +11,7 @@ import json, os, re, sys
 sys.path.insert(0, os.path.dirname(os.path.abspath(__file__)))
 from common import *
 
-ck = Check("C14", level="proof")
+ck = Check("C14", level="translation_validation")
 broken = []
 
 if ck.replay_in:
@@ -172,6 +172,7 @@ ck.finish({
     "rule": "one evaluation = one (function, builder mode) pair whose Dominates matrix (all ordered pairs), Idom, Dominees, DomPreorder, DomPostorder were read from go/ir and checked by tree_check inside coqc; identical (CFG, observation) pairs are evaluated once (%d distinct); non-trivial = distinct case whose CFG has a join (block with >= 2 predecessors) or a cycle" % len(cases),
     "samples": [describe(c) for c in (cases[:1] + [c for c in cases if c["Stats"]["Irreducible"]][:1] + [c for c in cases if c["CFG"]["Recover"] >= 0][:1])],
     "programs": len(data["Items"]),
+    "disagreements_checked": len(cases) - accepted,
     "corpus_items": data["Items"],
     "functions_by_corpus": data["ByCorpus"],
     "generated": data["Gen"],
